@@ -357,6 +357,8 @@ FAMILIES = {
     'len.digits-rgb-percent-fraction': (lambda k: 'a{color:rgba(' + '9' * (k * 10) + '.5%,0%,0%,' + '9' * (k * 10) + ');y:1}', 60),
     'len.digits-hsl-hue': (lambda k: 'a{color:hsl(' + '9' * (k * 10) + ',10%,10%);y:1}', 60),
     'len.digits-hsl-hue-fraction': (lambda k: 'a{color:hsla(-' + '9' * (k * 10) + '.5,10%,' + '9' * (k * 10) + '%,1);y:1}', 60),
+    'len.digits-hsl-sl': (lambda k: 'a{color:hsl(0,' + '9' * (k * 5) + '%,' + '9' * (k * 5) + '%);y:1}', 60),
+    'len.digits-hsla-negative': (lambda k: 'a{color:hsla(-' + '9' * (k * 5) + ',' + '9' * (k * 5) + '%,-' + '9' * (k * 5) + '%,' + '9' * (k * 5) + ');y:1}', 60),
     'len.digits-calc': (lambda k: 'a{width:calc(' + '9' * (k * 10) + 'px * ' + '9' * (k * 10) + '.5 / 0)}', 60),
     'len.digits-nth': (lambda k: 'a:nth-child(' + '9' * (k * 10) + 'n+' + '9' * (k * 10) + '){x:1}', 60),
     'len.digits-media': (lambda k: '@media (min-width:' + '9' * (k * 10) + 'px) and (aspect-ratio:' + '9' * (k * 10) + '/' + '9' * (k * 10) + '){a{x:1}}', 60),
